@@ -197,17 +197,73 @@ blocks_scanner(int N, int R, int tof_bins)
 }
 
 // image grid: voxel z = the default of VoxelsOnCartesianGrid(proj_data_info, ...) divided by zoom_z, zooms in y and x,
-// origin a whole number of planes along z
+// origin a whole number of planes along z.
+// The index ranges are those of VoxelsOnCartesianGrid(proj_data_info, zooms, origin, sizes) - z = 0..nz-1, x and y
+// -(n/2)..-(n/2)+n-1 - unless `shape` says otherwise: shape.z_first = index of the first plane (the matrix and the
+// symmetries put the middle plane (min+max)/2 of the index range at origin.z, wherever the range starts), ex/ey =
+// planes added at the low / high end of the x and y ranges (the projectors use the largest centred square / circle).
+struct GridShape
+{
+  int z_first = 0;
+  int ex0 = 0, ex1 = 0, ey0 = 0, ey1 = 0;
+  bool is_default() const { return z_first == 0 && ex0 == 0 && ex1 == 0 && ey0 == 0 && ey1 == 0; }
+  std::string desc() const
+  {
+    std::ostringstream d;
+    d << " zfirst=" << z_first << " xyext=" << ex0 << "," << ex1 << "," << ey0 << "," << ey1;
+    return d.str();
+  }
+};
+
 static shared_ptr<VoxelsOnCartesianGrid<float>>
-make_grid(const ProjDataInfo& pdi, float zoom_x, float zoom_y, int nxy, int nz, int zorigin_planes, float zoom_z = 1.F)
+make_grid(const ProjDataInfo& pdi, float zoom_x, float zoom_y, int nxy, int nz, int zorigin_planes, float zoom_z = 1.F,
+          const GridShape& shape = GridShape())
 {
   shared_ptr<ExamInfo> ex(new ExamInfo);
   const CartesianCoordinate3D<float> zooms(zoom_z, zoom_y, zoom_x);
   VoxelsOnCartesianGrid<float> probe(ex, pdi, zooms, CartesianCoordinate3D<float>(0.F, 0.F, 0.F), CartesianCoordinate3D<int>(nz, nxy, nxy));
   const float vz = probe.get_voxel_size().z();
+  if (shape.is_default())
+    {
+      shared_ptr<VoxelsOnCartesianGrid<float>> im(new VoxelsOnCartesianGrid<float>(
+          ex, pdi, zooms, CartesianCoordinate3D<float>(zorigin_planes * vz, 0.F, 0.F), CartesianCoordinate3D<int>(nz, nxy, nxy)));
+      return im;
+    }
+  const IndexRange3D range(shape.z_first, shape.z_first + nz - 1, probe.get_min_y() - shape.ey0, probe.get_max_y() + shape.ey1,
+                           probe.get_min_x() - shape.ex0, probe.get_max_x() + shape.ex1);
   shared_ptr<VoxelsOnCartesianGrid<float>> im(new VoxelsOnCartesianGrid<float>(
-      ex, pdi, zooms, CartesianCoordinate3D<float>(zorigin_planes * vz, 0.F, 0.F), CartesianCoordinate3D<int>(nz, nxy, nxy)));
+      ex, range, CartesianCoordinate3D<float>(zorigin_planes * vz, 0.F, 0.F), probe.get_voxel_size()));
   return im;
+}
+
+// a random non-default shape: first plane negative / straddling (the centred range) / positive; sometimes extra columns/rows
+static GridShape
+random_shape(vh::Rng& rng, int nz, bool with_xy)
+{
+  GridShape g;
+  static const int pos[] = { 1, 3, 7 };
+  switch (rng.range(0, 4))
+    {
+    case 0:
+      g.z_first = -(nz / 2); // centred: -4..4
+      break;
+    case 1:
+      g.z_first = -rng.range(1, std::max(1, nz - 2)); // straddling, not centred: -2..6
+      break;
+    case 2:
+      g.z_first = -nz - rng.range(0, 2); // all planes negative
+      break;
+    default:
+      g.z_first = pos[rng.range(0, 2)]; // 3..9
+    }
+  if (with_xy && rng.range(0, 2) == 0)
+    {
+      g.ex0 = rng.range(0, 2);
+      g.ex1 = rng.range(0, 2);
+      g.ey0 = rng.range(0, 2);
+      g.ey1 = rng.range(0, 2);
+    }
+  return g;
 }
 
 struct World
@@ -319,7 +375,7 @@ struct World
 };
 
 static bool
-make_world(World& w, vh::Rng& rng, int kind, bool thorough, bool even_views, bool force_mash)
+make_world(World& w, vh::Rng& rng, int kind, bool thorough, bool even_views, bool force_mash, bool shaped = false)
 {
   // kind 0: cylindrical non-TOF, 1: cylindrical TOF, 2: blocks non-TOF, 3: blocks TOF
   w = World();
@@ -385,15 +441,21 @@ make_world(World& w, vh::Rng& rng, int kind, bool thorough, bool even_views, boo
   static const int zorgs[] = { 0, 0, 0, 1, -1, 2 };
   const int zorg = w.blocks ? 0 : zorgs[rng.range(0, 5)];
   const bool aniso = !w.blocks && rng.range(0, 3) == 0;
-  w.image = make_grid(*w.pdi, zoom, aniso ? zoom * (rng.coin() ? 1.25F : 0.8F) : zoom, nxy, nz, zorg);
+  // index ranges: the default ones (first plane 0), or first plane negative / straddling / positive and x/y ranges with
+  // extra columns at either end
+  const GridShape shape = shaped ? random_shape(rng, nz, true) : GridShape();
+  w.image = make_grid(*w.pdi, zoom, aniso ? zoom * (rng.coin() ? 1.25F : 0.8F) : zoom, nxy, nz, zorg, 1.F, shape);
   w.exam.reset(new ExamInfo);
   w.exam->imaging_modality = ImagingModality::PT;
   w.image->set_exam_info(*w.exam);
   w.finish();
+  if (shaped)
+    g_counts[w.zmin < 0 ? (w.zmax < 0 ? "worlds_all_planes_negative" : "worlds_first_plane_negative") : "worlds_first_plane_positive"]++;
   std::ostringstream d;
   d << (w.blocks ? "blocks" : "cyl") << " N=" << N << " R=" << R << " span=" << span << " viewmash=" << mash << " views=" << views
     << " tang=" << ntang << " tofmash=" << tofmash << " nxy=" << nxy << " nz=" << nz << " voxel=" << w.image->get_voxel_size().x() << ","
-    << w.image->get_voxel_size().y() << " zorigin_planes=" << zorg << " arccorr=" << arccorr;
+    << w.image->get_voxel_size().y() << " zorigin_planes=" << zorg << " arccorr=" << arccorr << " grid=[" << w.zmin << ".." << w.zmax
+    << "," << w.ymin << ".." << w.ymax << "," << w.xmin << ".." << w.xmax << "]";
   w.desc = d.str();
   return true;
 }
@@ -1930,6 +1992,14 @@ lor_end_point_on_voxel_boundary(const World& w, bool cylfov, int seg, int view, 
   return false;
 }
 
+// Class C of inputs on which the on-the-fly projector is known to differ from the matrix: image grids whose first plane
+// is not 0.  proj_Siddon tests `plane >= 0 && plane <= max_index` (its `assert(min_index == 0)` is compiled out), so planes
+// with a negative index are ignored and, for a positive first plane, memory before the first plane is read.
+// g_otf_first_plane: 1 = the projector handles such grids (repaired tree), 0 = it shows exactly that signature
+// (set by otf_first_plane_probe() on a fixed small geometry; grids with a positive first plane are then not given to it).
+static int g_otf_first_plane = 1;
+static const char* const keyC = "on-the-fly-raytracing:image-first-plane-not-0";
+
 // On-the-fly ForwardProjectorByBinUsingRayTracing against forward projection through ProjMatrixByBinUsingRayTracing with the
 // same settings (1 tangential LOR, no detector-boundary correction, restrict_to_cylindrical_FOV = cylfov on both sides).
 static void
@@ -1941,6 +2011,14 @@ run_on_the_fly(const World& w, vh::Rng& rng, bool thorough, bool cylfov)
       g_counts["otf_skipped_geometry"]++;
       return;
     }
+  const bool classC_world = w.zmin != 0 && g_otf_first_plane == 0;
+  if (classC_world && w.zmin > 0)
+    { // unrepaired tree: the projector would read before the first plane
+      g_counts["otf_skipped_first_plane_positive_known_class"]++;
+      return;
+    }
+  if (w.zmin != 0)
+    g_counts["otf_configs_first_plane_not_0"]++;
   const int V = w.maxView - w.minView + 1;
   ForwardProjectorByBinUsingRayTracing otf;
   if (!cylfov)
@@ -2054,6 +2132,20 @@ run_on_the_fly(const World& w, vh::Rng& rng, bool thorough, bool cylfov)
           continue;
         }
       const std::vector<float> a1 = w.read(A1), a2 = w.read(A2);
+      std::vector<float> a2m; // class C: the matrix projection of the image with the planes below 0 set to 0
+      if (classC_world)
+        {
+          std::vector<float> xm(x);
+          for (int z = w.zmin; z <= std::min(-1, w.zmax); ++z)
+            for (int yy = w.ymin; yy <= w.ymax; ++yy)
+              for (int xx = w.xmin; xx <= w.xmax; ++xx)
+                xm[w.lin(z, yy, xx)] = 0.F;
+          shared_ptr<DiscretisedDensity<3, float>> XM = w.make_img(xm);
+          ProjDataInMemory A5(w.exam, w.pdi);
+          A5.fill(0.F);
+          fm.forward_project(A5, *XM, i, n, true);
+          a2m = w.read(A5);
+        }
       // scale for the tolerance floor: the largest bin of the projection of |x| (an upper bound of the magnitude of the
       // sums both projectors accumulate in float; the largest |bin| itself can be small by cancellation)
       double gmax = 0;
@@ -2101,6 +2193,26 @@ run_on_the_fly(const World& w, vh::Rng& rng, bool thorough, bool cylfov)
       });
       std::snprintf(buf, sizeof buf, "on-the-fly ray tracing forward projector differs from the ray-tracing matrix on %ld bins (worst outside the known classes %.3g, data max %.3g) subset %d/%d ",
                     bad, worst, gmax, i, n);
+      if (classC_world)
+        {
+          // attributed to class C only if the projector computes exactly "planes below 0 ignored" (up to classes A, B)
+          long unexplained = 0;
+          w.for_bins([&](int s, int v, int k, int a, int t) {
+            const int b = w.idx(s, v, 0, a, t);
+            if (std::fabs(double(a1[b]) - a2m[b]) > vtol[std::make_pair(s, v)] && !in_classA(s, v) && !in_classB(s, v)
+                && !lor_end_point_on_voxel_boundary(w, cylfov, s, v, a, t))
+              ++unexplained;
+          });
+          if (bad > 0 && unexplained == 0)
+            known_candidate(keyC, std::string(buf)
+                                      + "[equal to the matrix projection of the image with the planes of negative index set to 0: proj_Siddon "
+                                        "tests `plane >= 0` instead of `plane >= min_index` (assert(min_index == 0) compiled out)] "
+                                      + where);
+          else
+            oracle(bad == 0, std::string(buf) + "(" + std::to_string(unexplained) + " bins also differ from the projection without the planes of negative index) " + where);
+          g_counts["otf_compared_known_class_first_plane_negative"]++;
+          continue; // the remaining comparisons of this world only once the projector handles such grids
+        }
       verdict(bad, nA, nB, nAB, std::string(buf) + where);
       g_counts["otf_compared"]++;
       if (gmax > 0)
@@ -2285,6 +2397,614 @@ run_on_the_fly(const World& w, vh::Rng& rng, bool thorough, bool cylfov)
     }
 }
 
+// ------------------------------------------------------------------------------------------------ object histories
+
+// One geometry (projection data + image grid) of a history.
+struct HStep
+{
+  shared_ptr<ProjDataInfo> pdi;
+  shared_ptr<VoxelsOnCartesianGrid<float>> image;
+  std::string what;
+  int id = 0;
+};
+
+// A matrix + forward + back projector (or a ProjectorByBinPairUsingProjMatrixByBin) that lives through the whole history.
+struct HObj
+{
+  std::string name;
+  MSet ms;
+  bool cache = true, only_basic = true, use_pair = false;
+  shared_ptr<ProjMatrixByBin> pm;
+  shared_ptr<ForwardProjectorByBin> fwd;
+  shared_ptr<BackProjectorByBin> bck;
+  shared_ptr<ProjectorByBinPairUsingProjMatrixByBin> pair;
+  void build()
+  {
+    pm = make_matrix(ms, cache, false);
+    pm->store_only_basic_bins_in_cache(only_basic);
+    if (use_pair)
+      {
+        pair.reset(new ProjectorByBinPairUsingProjMatrixByBin(pm));
+        fwd = pair->get_forward_projector_sptr();
+        bck = pair->get_back_projector_sptr();
+      }
+    else
+      {
+        fwd.reset(new ForwardProjectorByBinUsingProjMatrixByBin(pm));
+        bck.reset(new BackProjectorByBinUsingProjMatrixByBin(pm));
+      }
+  }
+  void set_up(const shared_ptr<ProjDataInfo>& pdi, const shared_ptr<VoxelsOnCartesianGrid<float>>& image)
+  {
+    if (use_pair)
+      {
+        if (pair->set_up(pdi, image) != Succeeded::yes)
+          throw std::runtime_error("pair set_up failed");
+      }
+    else
+      {
+        fwd->set_up(pdi, image);
+        bck->set_up(pdi, image); // the matrix sees the same geometry a second time (ray tracing: skipped as already set up)
+      }
+  }
+  std::string desc() const
+  {
+    return name + " " + ms.desc() + " cache=" + std::to_string(cache) + " only_basic_bins=" + std::to_string(only_basic)
+           + (use_pair ? " ProjectorByBinPairUsingProjMatrixByBin" : " separate forward/back projector on one matrix");
+  }
+};
+
+static shared_ptr<ForwardProjectorByBinUsingRayTracing>
+make_otf(bool cylfov)
+{
+  shared_ptr<ForwardProjectorByBinUsingRayTracing> otf(new ForwardProjectorByBinUsingRayTracing);
+  if (!cylfov)
+    {
+      std::istringstream is("Forward Projector Using Ray Tracing Parameters :=\nrestrict to cylindrical FOV := 0\n"
+                            "End Forward Projector Using Ray Tracing Parameters :=\n");
+      if (!otf->parse(is))
+        throw std::runtime_error("on-the-fly projector: parse failed");
+    }
+  return otf;
+}
+
+// HISTORIES: one matrix / projector / projector-pair object is set_up in turn for several image grids (other voxel size,
+// z origin one plane off, other size, other first plane) and several projection-data geometries (fewer segments, trimmed
+// axial range, another scanner with the same numbers of views and segments), in an order drawn from the Rng, some
+// geometries twice, with rows requested and projections made between the set_ups.  After every set_up the objects have to
+// behave as objects set up for that geometry only:
+//   * differential: the Lean model gets the rows and symmetry tables of a FRESH matrix for the geometry and answers the
+//     forward / back projections that the OLD objects are asked for;
+//   * oracle: old object = fresh object (rows, forward, back: bitwise), matrix product, adjointness, on-the-fly projector
+//     (a fresh one and one that went through the same history) = matrix.
+static void
+run_history(vh::Rng& rng, bool thorough, int hid)
+{
+  char buf[320];
+  // ---- base geometry
+  const int kind = hid % 4 == 1 ? 1 : (hid % 4 == 3 ? 2 : 0); // 0 cyl, 1 cyl TOF, 2 blocks
+  World base;
+  base.blocks = kind == 2;
+  base.tof = kind == 1;
+  const int R = base.blocks ? 2 : rng.range(2, 3);
+  int N, span = 1, nxy;
+  shared_ptr<Scanner> sc, sc2;
+  if (!base.blocks)
+    {
+      static const int Ns[] = { 8, 12, 16 };
+      N = Ns[rng.range(0, base.tof ? 1 : 2)];
+      span = (hid % 4 == 2) ? 3 : 1;
+      nxy = rng.range(5, 8);
+      sc = vh::make_scanner(N, R, base.tof ? 5 : -1);
+      sc2 = vh::make_scanner(N, R, base.tof ? 5 : -1);
+      sc2->set_inner_ring_radius(sc->get_inner_ring_radius() * 1.25F); // another scanner, same numbers of views and segments
+      sc2->set_up();
+    }
+  else
+    {
+      N = 12;
+      nxy = 15;
+      sc = blocks_scanner(N, R, -1);
+      sc2 = blocks_scanner(N, R, -1);
+      sc2->set_ring_spacing(sc->get_ring_spacing()); // (same scanner: the blocks geometry is built from the crystal spacings)
+    }
+  base.span = span;
+  const int views = N / 2, maxtang = N / 2 - 1;
+  const int ntang = base.blocks ? maxtang : rng.range(std::max(3, maxtang - 2), maxtang);
+  const int tofmash = base.tof ? 1 : 0;
+  shared_ptr<ProjDataInfo> pdi1 = vh::make_pdi(sc, span, R - 1, views, ntang, false, tofmash);
+  std::vector<std::pair<shared_ptr<ProjDataInfo>, std::string>> pdis;
+  pdis.push_back(std::make_pair(pdi1, std::string("projdata 1")));
+  if (pdi1->get_max_segment_num() > 0)
+    { // fewer segments
+      shared_ptr<ProjDataInfo> p(pdi1->clone());
+      const int m = rng.range(0, pdi1->get_max_segment_num() - 1);
+      p->reduce_segment_range(-m, m);
+      pdis.push_back(std::make_pair(p, "fewer segments (-" + std::to_string(m) + ".." + std::to_string(m) + ")"));
+    }
+  if (pdi1->get_max_axial_pos_num(0) - pdi1->get_min_axial_pos_num(0) >= 2)
+    { // trimmed axial range in segment 0
+      shared_ptr<ProjDataInfo> p(pdi1->clone());
+      const bool lo = span > 1 || rng.coin(), hi = span > 1 || !lo; // (span > 1: the library insists on a centred range)
+      if (lo)
+        p->set_min_axial_pos_num(pdi1->get_min_axial_pos_num(0) + 1, 0);
+      if (hi)
+        p->set_max_axial_pos_num(pdi1->get_max_axial_pos_num(0) - 1, 0);
+      pdis.push_back(std::make_pair(p, std::string("axial range of segment 0 trimmed")));
+    }
+  if (!base.blocks)
+    pdis.push_back(std::make_pair(vh::make_pdi(sc2, span, R - 1, views, ntang, false, tofmash), std::string("other scanner (ring radius x1.25)")));
+  {
+    // fewer tangential positions
+    shared_ptr<ProjDataInfo> p(pdi1->clone());
+    p->set_min_tangential_pos_num(pdi1->get_min_tangential_pos_num() + 1);
+    p->set_max_tangential_pos_num(pdi1->get_max_tangential_pos_num() - 1);
+    pdis.push_back(std::make_pair(p, std::string("tangential range trimmed")));
+  }
+  // ---- image grids
+  static const float fracs[] = { 0.6F, 0.8F, 1.F };
+  const float frac = fracs[rng.range(0, 2)];
+  const float zoom = base.blocks ? 0.5F : sc->get_default_bin_size() * nxy / (2.F * sc->get_inner_ring_radius() * frac);
+  const int nz = 2 * R - 1;
+  auto grid = [&](const ProjDataInfo& p, float zm, int n_xy, int n_z, int zorg, const GridShape& sh) {
+    return make_grid(p, zm, zm, n_xy, n_z, zorg, 1.F, sh);
+  };
+  GridShape shifted;
+  shifted.z_first = rng.coin() ? -(nz / 2) : rng.range(1, 3);
+  std::vector<HStep> geos;
+  auto add = [&](const shared_ptr<ProjDataInfo>& p, const shared_ptr<VoxelsOnCartesianGrid<float>>& im, const std::string& what) {
+    HStep h;
+    h.pdi = p;
+    h.image = im;
+    h.what = what;
+    h.id = (int)geos.size();
+    geos.push_back(h);
+  };
+  add(pdi1, grid(*pdi1, zoom, nxy, nz, 0, GridShape()), "grid 1");
+  add(pdi1, grid(*pdi1, zoom * (rng.coin() ? 0.8F : 1.25F), nxy, nz, 0, GridShape()), "grid 2: same size, other voxel size");
+  add(pdi1, grid(*pdi1, zoom, nxy, nz, base.blocks ? 0 : (rng.coin() ? 1 : -1), base.blocks ? shifted : GridShape()),
+      base.blocks ? "grid 3: other first plane" : "grid 3: z origin one plane off");
+  add(pdi1, grid(*pdi1, zoom * (nxy + 2.F) / nxy, nxy + 2, base.blocks ? nz : nz + (rng.coin() ? 2 : -2) * (nz > 2), 0, GridShape()),
+      "grid 4: other size");
+  add(pdi1, grid(*pdi1, zoom, nxy, nz, 0, shifted), "grid 5: same size, first plane " + std::to_string(shifted.z_first));
+  for (std::size_t i = 1; i < pdis.size(); ++i)
+    add(pdis[i].first, grid(*pdis[i].first, zoom, nxy, nz, 0, GridShape()), "grid 1, " + pdis[i].second);
+  // ---- the order: a permutation, the first geometry again in third place and at the end
+  std::vector<int> order;
+  for (std::size_t i = 0; i < geos.size(); ++i)
+    order.push_back((int)i);
+  for (int i = (int)order.size() - 1; i > 0; --i)
+    std::swap(order[i], order[rng.range(0, i)]);
+  const int max_steps = thorough ? 9 : 6;
+  if ((int)order.size() > max_steps - 2)
+    order.resize(max_steps - 2);
+  order.insert(order.begin() + 2, order[0]);
+  order.push_back(order[0]);
+  {
+    std::ostringstream d;
+    d << "history " << hid << " " << (base.blocks ? "blocks" : "cyl") << " N=" << N << " R=" << R << " span=" << span << " views=" << views
+      << " tang=" << ntang << " tof=" << base.tof << " nxy=" << nxy << " nz=" << nz << " order=";
+    for (int o : order)
+      d << o << ",";
+    base.desc = d.str();
+  }
+  // ---- the objects that live through the history
+  std::vector<HObj> objs;
+  {
+    HObj a; // default caching; settings of the on-the-fly projector
+    a.name = "A";
+    a.ms = MSet{ 0, 1, true, true, true, true, true, rng.coin(), false };
+    objs.push_back(a);
+    HObj b; // pair object, every bin cached
+    b.name = "B";
+    b.ms = MSet{ 0, rng.range(1, 3), rng.coin(), rng.coin(), rng.coin(), rng.coin(), rng.coin(), rng.range(0, 3) != 0, rng.range(0, 3) == 0 };
+    b.only_basic = false;
+    b.use_pair = true;
+    objs.push_back(b);
+    HObj c; // cache disabled
+    c.name = "C";
+    c.ms = MSet{ 0, rng.range(1, 2), true, true, true, true, true, true, false };
+    c.cache = false;
+    c.use_pair = rng.coin();
+    objs.push_back(c);
+    if (!base.blocks)
+      {
+        HObj d; // interpolation matrix
+        d.name = "D";
+        d.ms = MSet{ 1, 1, true, true, true, true, true, true, false };
+        d.only_basic = rng.coin();
+        objs.push_back(d);
+      }
+  }
+  for (auto& o : objs)
+    o.build();
+  const bool otf_possible = !base.blocks && !base.tof && views % 2 == 0;
+  const bool otf_cylfov = objs[0].ms.cylfov;
+  shared_ptr<ForwardProjectorByBinUsingRayTracing> otf_old;
+  if (otf_possible)
+    otf_old = make_otf(otf_cylfov);
+  g_counts["histories"]++;
+
+  int step_no = 0;
+  for (int gi : order)
+    {
+      ++step_no;
+      const HStep& st = geos[gi];
+      World w;
+      w.blocks = base.blocks;
+      w.tof = base.tof;
+      w.span = span;
+      w.pdi = st.pdi;
+      w.image = st.image;
+      w.exam.reset(new ExamInfo);
+      w.exam->imaging_modality = ImagingModality::PT;
+      w.image->set_exam_info(*w.exam);
+      w.finish();
+      {
+        std::ostringstream d;
+        d << base.desc << " step " << step_no << " geometry " << st.id << " [" << st.what << "] voxel=" << w.image->get_voxel_size().x()
+          << " zorigin=" << w.image->get_origin().z() << " grid=[" << w.zmin << ".." << w.zmax << "," << w.ymin << ".." << w.ymax << ","
+          << w.xmin << ".." << w.xmax << "]";
+        w.desc = d.str();
+      }
+      Run R(w, rng);
+      const std::vector<float> x = R.rand_img(-4, 4, 15), zeros_img(w.nvox, 0.F);
+      const std::vector<float> y = R.rand_dat(-4, 4, 25), p = R.rand_dat(5, 9, 0), zeros_dat(w.nbins, 0.F);
+      shared_ptr<DiscretisedDensity<3, float>> X = w.make_img(x);
+      ProjDataInMemory Y(w.exam, w.pdi);
+      w.fill(Y, y);
+      const int V = w.maxView - w.minView + 1;
+      const int n = V >= 2 ? rng.range(2, std::min(V, 4)) : 1, si = rng.range(0, n - 1);
+      // the object whose answers go to the model at this step
+      const int diff_obj = rng.range(0, (int)objs.size() - 1);
+      const bool partial = rng.range(0, 2) == 0; // only a subset is projected at this step: the cache is filled in part
+
+      for (std::size_t oi = 0; oi < objs.size(); ++oi)
+        {
+          HObj& o = objs[oi];
+          const std::string where = o.desc() + " | " + w.desc;
+          // fresh objects for this geometry
+          HObj f = o;
+          f.build();
+          bool old_ok = true, fresh_ok = true;
+          std::string msg;
+          try
+            {
+              f.set_up(st.pdi, st.image);
+            }
+          catch (std::exception& e)
+            {
+              fresh_ok = false;
+              msg = e.what();
+            }
+          try
+            {
+              o.set_up(st.pdi, st.image);
+            }
+          catch (std::exception& e)
+            {
+              old_ok = false;
+              msg = e.what();
+            }
+          oracle(old_ok == fresh_ok, "set_up of an object that was set up for another geometry before "
+                                         + std::string(old_ok ? "succeeds where a fresh object refuses: " : "fails where a fresh object succeeds: ") + msg.substr(0, 120) + " " + where);
+          if (!old_ok || !fresh_ok)
+            {
+              g_counts["history_steps_refused"]++;
+              if (!old_ok)
+                o.build(); // start again with a new object
+              continue;
+            }
+          g_counts["history_object_steps"]++;
+          // ---- rows requested directly, before any projection (caches some of them)
+          {
+            long bad = 0;
+            const int nreq = 12;
+            for (int q = 0; q < nreq; ++q)
+              {
+                const int s = rng.range(w.minSeg, w.maxSeg);
+                const Bin b(s, rng.range(w.minView, w.maxView), rng.range(w.aMin(s), w.aMax(s)), rng.range(w.minT, w.maxT), rng.range(w.minK, w.maxK));
+                if (get_row(*o.pm, b) != get_row(*f.pm, b))
+                  ++bad;
+              }
+            oracle(bad == 0, "get_proj_matrix_elems_for_one_bin of a matrix that was set up for another geometry before differs from a fresh matrix for "
+                                 + std::to_string(bad) + " of " + std::to_string(nreq) + " bins " + where);
+          }
+          auto forward = [&](ForwardProjectorByBin& fp, const std::vector<float>& start, int i_, int n_, bool zero, std::vector<float>& out) {
+            ProjDataInMemory P(w.exam, w.pdi);
+            w.fill(P, start);
+            try
+              {
+                fp.forward_project(P, *X, i_, n_, zero);
+              }
+            catch (...)
+              {
+                return false;
+              }
+            out = w.read(P);
+            return true;
+          };
+          auto backward = [&](BackProjectorByBin& bp, int i_, int n_) {
+            shared_ptr<DiscretisedDensity<3, float>> im(w.image->get_empty_copy());
+            im->fill(3.F);
+            bp.back_project(*im, Y, i_, n_);
+            return w.read_img(*im);
+          };
+          // ---- a subset first (partial cache), then (unless `partial`) the whole data
+          std::vector<float> SH, SF, FH, FF;
+          const bool okS = forward(*o.fwd, p, si, n, false, SH) && forward(*f.fwd, p, si, n, false, SF);
+          oracle(okS && SH == SF, "forward_project(subset " + std::to_string(si) + "/" + std::to_string(n)
+                                      + ") of a projector that was set up for another geometry before differs from a fresh projector " + where);
+          const std::vector<float> TH = backward(*o.bck, si, n), TF = backward(*f.bck, si, n);
+          oracle(TH == TF, "back_project(subset " + std::to_string(si) + "/" + std::to_string(n)
+                               + ") of a projector that was set up for another geometry before differs from a fresh projector " + where);
+          bool okF = false;
+          std::vector<float> BH, BF;
+          if (!partial || (int)oi == diff_obj)
+            {
+              okF = forward(*o.fwd, p, 0, 1, true, FH) && forward(*f.fwd, p, 0, 1, true, FF);
+              long nd = 0;
+              double worst = 0, fmax = 0;
+              for (int b = 0; okF && b < w.nbins; ++b)
+                {
+                  if (FH[b] != FF[b])
+                    ++nd;
+                  worst = std::max(worst, (double)std::fabs(FH[b] - FF[b]));
+                  fmax = std::max(fmax, (double)std::fabs(FF[b]));
+                }
+              std::snprintf(buf, sizeof buf, "forward projection of a projector that was set up for another geometry before differs from a fresh projector on %ld of %d bins (largest difference %.3g, data max %.3g) ",
+                            nd, w.nbins, worst, fmax);
+              oracle(okF && nd == 0, std::string(buf) + where);
+              BH = backward(*o.bck, 0, 1);
+              BF = backward(*f.bck, 0, 1);
+              long nb = 0;
+              for (int v = 0; v < w.nvox; ++v)
+                if (BH[v] != BF[v])
+                  ++nb;
+              oracle(nb == 0, "back projection of a projector that was set up for another geometry before differs from a fresh projector on "
+                                  + std::to_string(nb) + " of " + std::to_string(w.nvox) + " voxels " + where);
+            }
+          const bool known_class = w.blocks && w.tof && !o.cache;
+          // ---- rows of a fresh probe matrix: matrix product, adjointness; for one object per step the model answers
+          if ((int)oi == diff_obj || (okF && rng.range(0, 1) == 0))
+            {
+              const bool differential = (int)oi == diff_obj;
+              shared_ptr<ProjMatrixByBin> probe = make_matrix(o.ms, false, false);
+              probe->set_up(w.pdi, w.image);
+              const DataSymmetriesForBins* sym = probe->get_symmetries_ptr();
+              R.rows.assign(w.nbins, RowT());
+              R.maxlen = 0;
+              if (differential)
+                {
+                  std::ostringstream op;
+                  op << "geom " << w.minSeg << " " << w.maxSeg << " " << w.minView << " " << w.maxView << " " << w.minT << " " << w.maxT << " "
+                     << w.minK << " " << w.maxK;
+                  for (int s = w.minSeg; s <= w.maxSeg; ++s)
+                    op << " " << w.aMin(s) << "," << w.aMax(s);
+                  emit(op.str(), "ok " + std::to_string(w.nbins));
+                  emit("cfg " + where, "ok");
+                  emit("rowset", "ok");
+                }
+              long out_of_grid = 0;
+              w.for_bins([&](int s, int v, int k, int a, int t) {
+                const int i = w.idx(s, v, k, a, t);
+                R.rows[i] = get_row(*probe, Bin(s, v, a, t, k));
+                R.maxlen = std::max<int>(R.maxlen, R.rows[i].size());
+                for (auto& e : R.rows[i])
+                  if (e.first[1] < w.ymin || e.first[1] > w.ymax || e.first[2] < w.xmin || e.first[2] > w.xmax)
+                    ++out_of_grid;
+                if (differential)
+                  emit("row " + std::to_string(s) + " " + std::to_string(v) + " " + std::to_string(a) + " " + std::to_string(t) + " " + std::to_string(k)
+                           + rowstr(R.rows[i]),
+                       std::to_string(i) + " " + std::to_string(R.rows[i].size()));
+              });
+              oracle(out_of_grid == 0, "rows contain voxels outside the image grid in y/x (" + std::to_string(out_of_grid) + ") " + where);
+              if (differential)
+                {
+                  emit("sym", "ok");
+                  for (int s = w.minSeg; s <= w.maxSeg; ++s)
+                    for (int v = w.minView; v <= w.maxView; ++v)
+                      {
+                        const ViewSegmentNumbers vs(v, s);
+                        if (!static_cast<const DataSymmetriesForViewSegmentNumbers*>(sym)->is_basic(vs))
+                          continue;
+                        std::vector<ViewSegmentNumbers> rel;
+                        sym->get_related_view_segment_numbers(rel, vs);
+                        std::ostringstream op;
+                        op << "vs " << v << " " << s;
+                        for (auto& r : rel)
+                          op << " " << r.view_num() << "," << r.segment_num();
+                        emit(op.str(), std::to_string(rel.size()));
+                        for (int k = w.minK; k <= w.maxK; ++k)
+                          for (int t = w.minT; t <= w.maxT; ++t)
+                            for (int a = w.aMin(s); a <= w.aMax(s); ++a)
+                              {
+                                Bin bb(s, v, a, t, k);
+                                sym->find_basic_bin(bb);
+                                std::vector<AxTangPosNumbers> l;
+                                sym->get_related_bins_factorised(l, bb, w.aMin(s), w.aMax(s), w.minT, w.maxT);
+                                std::ostringstream o2;
+                                o2 << "rel " << v << " " << s << " " << k << " " << a << " " << t << relstr(l);
+                                emit(o2.str(), std::to_string(l.size()));
+                              }
+                      }
+                  emit("grid " + std::to_string(w.zmin) + " " + std::to_string(w.zmax) + " " + std::to_string(w.ymin) + " " + std::to_string(w.ymax)
+                           + " " + std::to_string(w.xmin) + " " + std::to_string(w.xmax),
+                       "ok " + std::to_string(w.nvox));
+                  emit("img x" + intlist(x), "ok " + std::to_string(w.nvox));
+                  emit("img o" + intlist(zeros_img), "ok " + std::to_string(w.nvox));
+                  emit("dat y" + intlist(y), "ok " + std::to_string(w.nbins));
+                  emit("dat p" + intlist(p), "ok " + std::to_string(w.nbins));
+                  emit(std::string("cache ") + (o.cache ? "1" : "0"), "ok");
+                  // the OLD projectors answer; the model works from the fresh rows
+                  std::snprintf(buf, sizeof buf, "fwd S x p %d %d 0", si, n);
+                  emit(buf, okS ? hexlist(SH) : "err");
+                  emit("fwd F x p 0 1 1", okF ? hexlist(FH) : "err");
+                  // back projector: set_up cloned the (zero) image of this geometry; accumulate a subset and the whole on top
+                  o.bck->set_up(w.pdi, w.image);
+                  emit("bsetup o", "ok");
+                  o.bck->back_project(Y, si, n);
+                  std::snprintf(buf, sizeof buf, "bsub y %d %d", si, n);
+                  emit(buf, "ok");
+                  shared_ptr<DiscretisedDensity<3, float>> o1(w.image->get_empty_copy());
+                  o1->fill(9.F);
+                  o.bck->get_output(*o1);
+                  emit("bout", hexlist(w.read_img(*o1)));
+                  o.bck->start_accumulating_in_new_target();
+                  emit("bstart", "ok");
+                  o.bck->back_project(Y, 0, 1);
+                  emit("bsub y 0 1", "ok");
+                  o.bck->get_output(*o1);
+                  emit("bout", hexlist(w.read_img(*o1)));
+                  g_counts["history_steps_answered_by_the_model"]++;
+                }
+              if (okF && !known_class)
+                {
+                  std::vector<double> rf, rfm;
+                  R.ref_fwd(x, rf, rfm);
+                  long bad = 0;
+                  for (int b = 0; b < w.nbins; ++b)
+                    if (std::fabs(FH[b] - rf[b]) > 4 * EPS * (R.rows[b].size() + 1) * rfm[b])
+                      ++bad;
+                  oracle(bad == 0, "forward projection of a projector that was set up for another geometry before differs from the matrix product with the rows of a fresh matrix on "
+                                       + std::to_string(bad) + " of " + std::to_string(w.nbins) + " bins " + where);
+                  const std::vector<char> all_in(w.nbins, 1);
+                  std::vector<double> v, m;
+                  std::vector<int> c;
+                  R.ref_bck(y, all_in, v, m, c);
+                  long badb = 0;
+                  double M = 0;
+                  int C = 0;
+                  for (int q = 0; q < w.nvox; ++q)
+                    {
+                      if (std::fabs(BH[q] - v[q]) > 4 * EPS * (c[q] + 1) * m[q])
+                        ++badb;
+                      M += std::fabs(x[q]) * m[q];
+                      C = std::max(C, c[q]);
+                    }
+                  oracle(badb == 0, "back projection of a projector that was set up for another geometry before differs from the transposed matrix product with the rows of a fresh matrix on "
+                                        + std::to_string(badb) + " of " + std::to_string(w.nvox) + " voxels " + where);
+                  double l = 0, r = 0;
+                  for (int b = 0; b < w.nbins; ++b)
+                    l += double(FH[b]) * y[b];
+                  for (int q = 0; q < w.nvox; ++q)
+                    r += double(x[q]) * BH[q];
+                  const double tol = 4 * EPS * (R.maxlen + C + 2) * M;
+                  std::snprintf(buf, sizeof buf, "adjoint after a history of set_ups: <Ax,y>=%.9g <x,A'y>=%.9g tol=%.3g ", l, r, tol);
+                  oracle(std::fabs(l - r) <= tol, std::string(buf) + where);
+                }
+            }
+          // ---- adjointness on the subset without rows: tolerance from the projection of |x| (fresh projector)
+          if (okS && !known_class)
+            {
+              std::vector<float> xa(x);
+              for (auto& q : xa)
+                q = std::fabs(q);
+              shared_ptr<DiscretisedDensity<3, float>> XA = w.make_img(xa);
+              ProjDataInMemory PA(w.exam, w.pdi);
+              PA.fill(0.F);
+              f.fwd->forward_project(PA, *XA, si, n, true);
+              const std::vector<float> fa = w.read(PA);
+              ProjDataInMemory PZ(w.exam, w.pdi);
+              PZ.fill(0.F);
+              o.fwd->forward_project(PZ, *X, si, n, true);
+              const std::vector<float> sz = w.read(PZ);
+              double l = 0, r = 0, M = 0;
+              for (int b = 0; b < w.nbins; ++b)
+                {
+                  l += double(sz[b]) * y[b];
+                  M += double(fa[b]) * std::fabs(y[b]);
+                }
+              for (int q = 0; q < w.nvox; ++q)
+                r += double(x[q]) * TH[q];
+              const double tol = 4 * EPS * (w.nbins + 3 * (w.xmax - w.xmin + w.ymax - w.ymin + w.zmax - w.zmin + 3) + 2) * M;
+              std::snprintf(buf, sizeof buf, "adjoint on subset %d/%d after a history of set_ups: <Ax,y>=%.9g <x,A'y>=%.9g tol=%.3g ", si, n, l, r, tol);
+              oracle(std::fabs(l - r) <= tol, std::string(buf) + where);
+            }
+          // ---- on-the-fly projector = matrix (object A has its settings): a fresh one, and one with the same history
+          if (oi == 0 && otf_possible && okF)
+            {
+              const bool unsafe = w.zmin > 0 && g_otf_first_plane == 0;
+              const bool known_c = w.zmin != 0 && g_otf_first_plane == 0;
+              if (!unsafe)
+                {
+                  shared_ptr<ForwardProjectorByBinUsingRayTracing> otf_new = make_otf(otf_cylfov);
+                  bool ok1 = true, ok2 = true;
+                  try
+                    {
+                      otf_new->set_up(w.pdi, w.image);
+                    }
+                  catch (...)
+                    {
+                      ok1 = false;
+                    }
+                  try
+                    {
+                      otf_old->set_up(w.pdi, w.image);
+                    }
+                  catch (...)
+                    {
+                      ok2 = false;
+                    }
+                  oracle(ok1 == ok2, "set_up of an on-the-fly projector that was set up for another geometry before does not agree with a fresh one " + where);
+                  if (ok1 && ok2)
+                    {
+                      ProjDataInMemory A1(w.exam, w.pdi), A2(w.exam, w.pdi);
+                      A1.fill(0.F);
+                      A2.fill(0.F);
+                      otf_new->forward_project(A1, *X, 0, 1, true);
+                      otf_old->forward_project(A2, *X, 0, 1, true);
+                      const std::vector<float> a1 = w.read(A1), a2 = w.read(A2);
+                      oracle(a1 == a2, "on-the-fly projector that was set up for another geometry before differs from a fresh one " + where);
+                      if (!known_c)
+                        {
+                          double gmax = 0;
+                          {
+                            std::vector<float> xa(x);
+                            for (auto& q : xa)
+                              q = std::fabs(q);
+                            shared_ptr<DiscretisedDensity<3, float>> XA = w.make_img(xa);
+                            ProjDataInMemory A3(w.exam, w.pdi);
+                            A3.fill(0.F);
+                            f.fwd->forward_project(A3, *XA, 0, 1, true);
+                            for (float v : w.read(A3))
+                              gmax = std::max(gmax, (double)std::fabs(v));
+                          }
+                          long bad = 0;
+                          double worst = 0;
+                          for (int s = w.minSeg; s <= w.maxSeg; ++s)
+                            for (int v = w.minView; v <= w.maxView; ++v)
+                              {
+                                double vmax = 0;
+                                for (int a = w.aMin(s); a <= w.aMax(s); ++a)
+                                  for (int t = w.minT; t <= w.maxT; ++t)
+                                    vmax = std::max(vmax, (double)std::fabs(FF[w.idx(s, v, 0, a, t)]));
+                                const double tol = 1e-4 * std::max(vmax, 0.05 * gmax);
+                                for (int a = w.aMin(s); a <= w.aMax(s); ++a)
+                                  for (int t = w.minT; t <= w.maxT; ++t)
+                                    {
+                                      const int b = w.idx(s, v, 0, a, t);
+                                      const double d = std::fabs(double(a2[b]) - FH[b]);
+                                      if (d > tol && !lor_end_point_on_voxel_boundary(w, otf_cylfov, s, v, a, t))
+                                        {
+                                          ++bad;
+                                          worst = std::max(worst, d);
+                                        }
+                                    }
+                              }
+                          std::snprintf(buf, sizeof buf, "after a history of set_ups the on-the-fly ray tracing projector and the ray-tracing matrix projector differ on %ld of %d bins (worst %.3g, data max %.3g) ",
+                                        bad, w.nbins, worst, gmax);
+                          oracle(bad == 0, std::string(buf) + where);
+                          g_counts["history_steps_compared_with_on_the_fly"]++;
+                        }
+                    }
+                }
+            }
+        }
+      g_counts["history_steps"]++;
+    }
+}
+
 // larger cylindrical non-TOF geometries for the on-the-fly comparison only (no model involved): enough views for every
 // symmetry case of the hand-optimised Siddon code (1, 2, 4 and 8 related viewgrams, 2D and oblique segments); numbers of
 // views that are multiples of 4, of the form 4k+2, and odd (refused); odd and even image sizes; 2R-3 / 2R-1 / 2R+1 planes;
@@ -2318,7 +3038,10 @@ make_otf_world(World& w, vh::Rng& rng, int k)
   if (coarse_z)
     nz = R;
   const int zorg = Zs[c];
-  w.image = make_grid(*w.pdi, zoom, aniso ? zoom * (rng.coin() ? 1.25F : 0.8F) : zoom, nxy, nz, zorg, coarse_z ? 0.5F : 1.F);
+  // index ranges: first plane negative / straddling / positive (and extra columns) in half of the worlds
+  const bool shaped = c == 1 || c == 3 || c == 4 || c == 6 || c == 8;
+  const GridShape shape = shaped ? random_shape(rng, nz, k % 2 == 0) : GridShape();
+  w.image = make_grid(*w.pdi, zoom, aniso ? zoom * (rng.coin() ? 1.25F : 0.8F) : zoom, nxy, nz, zorg, coarse_z ? 0.5F : 1.F, shape);
   w.exam.reset(new ExamInfo);
   w.exam->imaging_modality = ImagingModality::PT;
   w.image->set_exam_info(*w.exam);
@@ -2326,9 +3049,87 @@ make_otf_world(World& w, vh::Rng& rng, int k)
   std::ostringstream d;
   d << "otf-world cyl N=" << N << " R=" << R << " span=" << span << " views=" << N / 2 << " tang=" << ntang << " nxy=" << nxy << " nz=" << nz
     << " voxel=" << w.image->get_voxel_size().x() << "," << w.image->get_voxel_size().y() << "," << w.image->get_voxel_size().z()
-    << " zorigin_planes=" << zorg;
+    << " zorigin_planes=" << zorg << " grid=[" << w.zmin << ".." << w.zmax << "," << w.ymin << ".." << w.ymax << "," << w.xmin << ".."
+    << w.xmax << "]";
   w.desc = d.str();
   return true;
+}
+
+// Does the on-the-fly projector handle an image grid whose first plane is not 0?  Fixed geometry (16 detectors, 3 rings,
+// 9x9x5 voxels, planes -2..2), image value = 1 + plane - first plane.  Sets g_otf_first_plane.
+static void
+otf_first_plane_probe()
+{
+  World w;
+  shared_ptr<Scanner> sc = vh::make_scanner(16, 3, -1);
+  w.pdi = vh::make_pdi(sc, 1, 2, 8, 7, false, 0);
+  GridShape shape;
+  shape.z_first = -2;
+  const float zoom = sc->get_default_bin_size() * 9 / (2.F * sc->get_inner_ring_radius() * 0.7F);
+  w.image = make_grid(*w.pdi, zoom, zoom, 9, 5, 0, 1.F, shape);
+  w.exam.reset(new ExamInfo);
+  w.exam->imaging_modality = ImagingModality::PT;
+  w.image->set_exam_info(*w.exam);
+  w.finish();
+  w.desc = "probe cyl N=16 R=3 span=1 views=8 tang=7 nxy=9 nz=5 grid planes -2..2";
+  std::vector<float> x(w.nvox), xm(w.nvox);
+  for (int z = w.zmin; z <= w.zmax; ++z)
+    for (int y = w.ymin; y <= w.ymax; ++y)
+      for (int xx = w.xmin; xx <= w.xmax; ++xx)
+        {
+          x[w.lin(z, y, xx)] = 1.F + (z - w.zmin);
+          xm[w.lin(z, y, xx)] = z < 0 ? 0.F : 1.F + (z - w.zmin);
+        }
+  ForwardProjectorByBinUsingRayTracing otf;
+  otf.set_up(w.pdi, w.image);
+  shared_ptr<ProjMatrixByBinUsingRayTracing> pm(new ProjMatrixByBinUsingRayTracing);
+  pm->set_num_tangential_LORs(1);
+  pm->set_restrict_to_cylindrical_FOV(true);
+  pm->set_use_actual_detector_boundaries(false);
+  ForwardProjectorByBinUsingProjMatrixByBin fm(pm);
+  fm.set_up(w.pdi, w.image);
+  ProjDataInMemory A1(w.exam, w.pdi), A2(w.exam, w.pdi), A3(w.exam, w.pdi);
+  A1.fill(0.F);
+  A2.fill(0.F);
+  A3.fill(0.F);
+  otf.forward_project(A1, *w.make_img(x), 0, 1, true);
+  fm.forward_project(A2, *w.make_img(x), 0, 1, true);
+  fm.forward_project(A3, *w.make_img(xm), 0, 1, true);
+  const std::vector<float> a1 = w.read(A1), a2 = w.read(A2), a3 = w.read(A3);
+  double gmax = 0;
+  for (float v : a2)
+    gmax = std::max(gmax, (double)std::fabs(v));
+  long bad = 0, unexplained = 0;
+  w.for_bins([&](int s, int v, int k, int a, int t) {
+    const int b = w.idx(s, v, k, a, t);
+    if (lor_end_point_on_voxel_boundary(w, true, s, v, a, t))
+      return;
+    if (std::fabs(double(a1[b]) - a2[b]) > 1e-4 * gmax)
+      ++bad;
+    if (std::fabs(double(a1[b]) - a3[b]) > 1e-4 * gmax)
+      ++unexplained;
+  });
+  char buf[256];
+  std::snprintf(buf, sizeof buf, "on-the-fly ray tracing forward projector differs from the ray-tracing matrix on %ld of %d bins for an image whose planes are numbered -2..2 ",
+                bad, w.nbins);
+  if (bad == 0)
+    {
+      g_otf_first_plane = 1;
+      ++g_checks;
+    }
+  else
+    {
+      g_otf_first_plane = 0;
+      if (unexplained == 0)
+        known_candidate(keyC, std::string(buf)
+                                  + "[equal to the matrix projection of the image with the planes of negative index set to 0: proj_Siddon tests "
+                                    "`plane >= 0` instead of `plane >= min_index` (assert(min_index == 0) compiled out); with a positive first "
+                                    "plane it reads before the first plane: such grids are not given to it] "
+                                  + w.desc);
+      else
+        oracle(false, std::string(buf) + "(" + std::to_string(unexplained) + " bins also differ from the projection without the planes of negative index) " + w.desc);
+    }
+  g_counts["otf_first_plane_probe_handles_offset_grids"] = g_otf_first_plane;
 }
 
 int
@@ -2342,6 +3143,8 @@ main(int argc, char** argv)
   g_ops = std::fopen(argv[3], "w");
   g_out = std::fopen(argv[4], "w");
   g_orc = std::fopen((std::string(argv[4]) + ".oracle").c_str(), "w");
+
+  otf_first_plane_probe();
 
   // worlds: fixed mix of kinds (0 cyl, 1 cyl TOF, 2 blocks, 3 blocks TOF)
   std::vector<int> kinds;
@@ -2359,7 +3162,8 @@ main(int argc, char** argv)
       World w;
       try
         {
-          make_world(w, rng, kind, thorough, /*even_views*/ kind == 0 && (wid % 3 == 0), /*force_mash*/ kind == 0 && (wid % 3 == 2));
+          make_world(w, rng, kind, thorough, /*even_views*/ kind == 0 && (wid % 3 == 0), /*force_mash*/ kind == 0 && (wid % 3 == 2),
+                     /*shaped*/ wid % 2 == 1 || wid % 8 == 6);
         }
       catch (std::exception& e)
         {
@@ -2420,6 +3224,17 @@ main(int argc, char** argv)
       catch (std::exception& e)
         {
           std::fprintf(g_orc, "NOTE on-the-fly world %d skipped: %s\n", k, e.what());
+        }
+    }
+  for (int h = 0; h < (thorough ? 12 : 3); ++h)
+    {
+      try
+        {
+          run_history(rng, thorough, h);
+        }
+      catch (std::exception& e)
+        {
+          oracle(false, std::string("history ") + std::to_string(h) + " aborted: " + e.what());
         }
     }
   for (auto& kv : g_counts)
